@@ -68,6 +68,21 @@ def corpus(tier, seed):
         "start = b'ab' | b/x+/i | 'q'i | 0x1F | super.start\n",
     ]
     texts += extra
+    # characters outside ASCII where the description language uses character classes: white space after a line break (\s in
+    # Newline), digits of other scripts (\d in counts and numbers), letters in names (\w), and in the places where they
+    # are ordinary content
+    for ws in ('\u00a0', '\u2028', '\u0085', '\u001f', '\u3000', '\t'):
+        texts.append(f'A = "x"\n{ws}{ws}B = "y"\n')
+        texts.append(f'A = "x"{ws}\nB = "y"\n')
+        texts.append(f'class C {{\n{ws}a: "x"\n{ws}b: "y"\n}}\n')
+        texts.append(f'start = ["a",\n{ws}"b"]\n')
+    for dg in ('\u0663', '\u0967', '\uff13'):
+        texts.append(f'start = Item{{{dg}}}\nItem = "a"\n')
+        texts.append(f'start = Item{{1,{dg}}}\nItem = `{dg}`\n')
+        texts.append(f'start = "a" | 0x{dg}F\n')
+    for name in ('\u00e9t\u00e9', 'na\u00efve', 'x\u0663', '\u03bb'):
+        texts.append(f'{name} = "a"\nstart = {name} | "\u00e9"\n')
+        texts.append(f'class C {{ {name}: /[\u00e0-\u00ff]+/ }}\n')
     # identifiers that begin or end with a word of the description language itself (the words are read from
     # grammar.txt on every run): keyword boundaries are where the two parsers can part ways
     gtxt = open(os.path.join(REPO, 'grammar.txt')).read()
